@@ -22,7 +22,7 @@ s=open('DESIGN.md').read()
 a=s.index("| seed | change | result | reported at |")
 b=s.index("   Reading the table:")
 s=s[:a]+tbl+"\n"+s[b:]
-s=re.sub(r"   \d+ changes in (two|three|four|five|six|seven|eight|nine|ten|eleven|twelve|thirteen) rounds \((the second round was told to avoid the place the first one used|each later round was told to avoid the places the earlier ones used)\): \*\*.*?\*\*\.",
-  "   %d changes in thirteen rounds (each later round was told to avoid the places the earlier ones used): **%d detected as delivered, %d detected after a rule was added or a key corrected, %d missed**." % (det+late+miss,det,late,miss), s)
+s=re.sub(r"   \d+ changes in (two|three|four|five|six|seven|eight|nine|ten|eleven|twelve|thirteen|fourteen) rounds \((the second round was told to avoid the place the first one used|each later round was told to avoid the places the earlier ones used)\): \*\*.*?\*\*\.",
+  "   %d changes in fourteen rounds (each later round was told to avoid the places the earlier ones used): **%d detected as delivered, %d detected after a rule was added or a key corrected, %d missed**." % (det+late+miss,det,late,miss), s)
 open('DESIGN.md','w').write(s)
 print(det,late,miss)
